@@ -2,6 +2,7 @@ import ImmuModel.Base.Bytes
 import Driver.Util
 import ImmuModel.Log.SingleApp
 import ImmuModel.Log.MultiApp
+import ImmuModel.Log.Faults
 namespace Driver.C17
 open ImmuModel ImmuModel.Log
 
@@ -20,6 +21,11 @@ def errS : Option Err → String
   | some .eof => "err:eof"
   | some .syncFailed => "err:sync"
   | some .hang => "err:hang"
+
+/-- answer of a call made under the write fault -/
+def wS : WOut → String
+  | .writeFailed => "err:write"
+  | .ret e => errS e
 
 def b? (s : String) : Option Bool := if s == "1" then some true else if s == "0" then some false else none
 
@@ -58,6 +64,11 @@ def step (st : St) : List String → St × String
   | ["s.flush"] => let (s, e) := st.s.apiFlush; ({ st with s := s }, errS e)
   | ["s.sync"] => let (s, e) := st.s.apiSync; ({ st with s := s }, errS e)
   | ["s.ro"] => let (s, e) := st.s.switchRO; ({ st with s := s }, errS e)
+  -- fault injection: fsync fails (after an un-faulted Flush) / every content write fails with n = 0
+  | ["s.syncfail"] => let (s, e) := st.s.apiSync false; ({ st with s := s }, errS e)
+  | ["s.rofail"] => let (s, e) := st.s.switchRO false; ({ st with s := s }, errS e)
+  | ["s.flushfail"] => let (s, e) := st.s.apiFlushW0; ({ st with s := s }, wS e)
+  | ["s.syncwfail"] => let (s, e) := st.s.apiSyncW0 true; ({ st with s := s }, wS e)
   | ["s.size"] => (st, sizeS st.s.size)
   | ["s.offset"] => (st, toString st.s.offset)
   | ["s.meta"] => (st, Bytes.toHexTok st.s.mdata)
@@ -103,6 +114,10 @@ def step (st : St) : List String → St × String
   | ["m.flush"] => let (m, e) := st.m.flush; ({ st with m := m }, errS e)
   | ["m.sync"] => let (m, e) := st.m.sync; ({ st with m := m }, errS e)
   | ["m.ro"] => let (m, e) := st.m.switchRO; ({ st with m := m }, errS e)
+  | ["m.syncfail"] => let (m, e) := st.m.sync false; ({ st with m := m }, errS e)
+  | ["m.rofail"] => let (m, e) := st.m.switchRO false; ({ st with m := m }, errS e)
+  | ["m.flushfail"] => let (m, e) := st.m.flushW0; ({ st with m := m }, wS e)
+  | ["m.syncwfail"] => let (m, e) := st.m.syncW0 true; ({ st with m := m }, wS e)
   | ["m.size"] => (st, sizeS st.m.size)
   | ["m.offset"] => (st, toString st.m.offset)
   | ["m.meta"] => (st, Bytes.toHexTok st.m.mdata)
